@@ -40,6 +40,10 @@ def bytesOfHex (s : String) : List Int :=
     | _ => []
   go s.toList
 
+/-- header space of an attribute value: padded to a 4-byte boundary (x_len_NC_attrV); a data-mode overwrite is permitted
+    iff the new value does not need more of it -/
+def attLen (xt n : Nat) : Nat := (n * xsize xt + 3) / 4 * 4
+
 /-- memory-type check NC_ECHAR -/
 def echar (xt : Nat) (mt : String) : Bool := (xt == 2) != (mt == "text")
 
@@ -160,7 +164,7 @@ def globalOp (w : World) (t : List String) : World × String :=
       match findIdx? (fun a : SAtt => a.name == name) atts with
       | some i =>
         let old := atts.getD i default
-        if !inDefine w && vs.length * xsize x > old.vals.length * xsize old.xtype then (w, s!"{NC_ENOTINDEFINE}")
+        if !inDefine w && attLen x vs.length > attLen old.xtype old.vals.length then (w, s!"{NC_ENOTINDEFINE}")
         else (setAtts w tgt (atts.set i newA), "0")
       | none =>
         if !inDefine w then (w, s!"{NC_ENOTINDEFINE}") else (setAtts w tgt (atts ++ [newA]), "0")
@@ -186,7 +190,7 @@ def globalOp (w : World) (t : List String) : World × String :=
       match findIdx? (fun a : SAtt => a.name == name) atts with
       | some i =>
         let old := atts.getD i default
-        if !inDefine w && vs.length * xsize x > old.vals.length * xsize old.xtype then (w, s!"{NC_ENOTINDEFINE}")
+        if !inDefine w && attLen x vs.length > attLen old.xtype old.vals.length then (w, s!"{NC_ENOTINDEFINE}")
         else (setAtts w tgt (atts.set i newA), s!"{rc}")
       | none =>
         if !inDefine w then (w, s!"{NC_ENOTINDEFINE}") else (setAtts w tgt (atts ++ [newA]), s!"{rc}")
@@ -229,7 +233,7 @@ def globalOp (w : World) (t : List String) : World × String :=
         match findIdx? (fun b : SAtt => b.name == name) atts with
         | some i =>
           let old := atts.getD i default
-          if !inDefine w && a.vals.length * xsize a.xtype > old.vals.length * xsize old.xtype then (w, s!"{NC_ENOTINDEFINE}")
+          if !inDefine w && attLen a.xtype a.vals.length > attLen old.xtype old.vals.length then (w, s!"{NC_ENOTINDEFINE}")
           else (setAtts w tout (atts.set i a), "0")
         | none => if !inDefine w then (w, s!"{NC_ENOTINDEFINE}") else (setAtts w tout (atts ++ [a]), "0")
     | _, _ => (w, s!"{NC_ENOTVAR}")
